@@ -8,7 +8,7 @@ CONSTANTS GapSet, ObjForms, SubjForms
 VARIABLES of, sf, gaps, pc
 vars == <<of, sf, gaps, pc>>
 P2(s) == CASE s = "s.pn" -> "p.a" [] s = "s.abs" -> "p.abs" [] s = "s.rel" -> "p.type" [] OTHER -> "p.pn"
-S2(s) == CASE s = "s.pn" -> "s.bn" [] s = "s.abs" -> "s.rel" [] s = "s.rel" -> "s.pn" [] OTHER -> "s.abs"
+S2(s) == CASE s = "s.pn" -> "s.bn" [] s = "s.abs" -> "s.rel" [] s = "s.rel" -> "s.pn" [] s = "s.https" -> "s.https" [] OTHER -> "s.abs"
 Toks == <<sf, "p.pn", of, ";", P2(sf), IF P2(sf) \in {"p.a", "p.type"} THEN "o.cls" ELSE of, ",", "o.pn", ".", S2(sf), "p.abs", of, ".">>
 NT == 13
 Init == /\ of \in ObjForms /\ sf \in SubjForms /\ pc = 1
